@@ -186,17 +186,13 @@ def run(repo: Repo, chk: Check) -> None:
     chk.set_clause('C03.2')
     enc = repo.module('pytezos.crypto.encoding')
 
+    from ..validators import validator_prefixes as _vp
+
     def validator_prefixes(fname):
-        fi = repo.func(f'pytezos.crypto.encoding.{fname}')
-        for c in [n for n in ast.walk(fi.node) if isinstance(n, ast.Call)]:
-            d = dotted(c.func)
-            if d == '_validate':
-                for kw in c.keywords:
-                    if kw.arg == 'prefixes':
-                        return [p.decode() for p in repo.fold(kw.value, enc)]
-            if d and d.startswith('validate_'):
-                return validator_prefixes(d)
-        raise AnalysisError(f'prefix list of {fname} not found')
+        pl = _vp(repo, fname)
+        if pl is None:
+            raise AnalysisError(f'prefix list of {fname} not found')
+        return [p.decode() for p in pl]
 
     preds = {n: validator_prefixes(n) for n in ('is_pkh', 'is_kt', 'is_sr')}
     kinds = preds['is_pkh'] + preds['is_kt'] + preds['is_sr']
@@ -288,10 +284,16 @@ def run(repo: Repo, chk: Check) -> None:
                     rev = next((k for k in c.keywords if k.arg == 'reverse'), None)
                     ok = rev is None
                     if keyf is not None:
-                        # entries are (key, value) tuples: only `lambda x: x[0]` keeps the key relation
-                        ok = ok and isinstance(keyf, ast.Lambda) and isinstance(keyf.body, ast.Subscript) and \
-                            isinstance(keyf.body.slice, ast.Constant) and keyf.body.slice.value == 0 and \
-                            isinstance(keyf.body.value, ast.Name) and keyf.body.value.id == keyf.args.args[0].arg
+                        # entries are (key, value) tuples: only a projection on the entry's key keeps the key relation (decided by applying
+                        # the key function to a symbolic pair: lambda x: x[0], itemgetter(0), a named helper ... are the same thing)
+                        from ..absint import Env, sort_key_kind
+                        _it = Interp(repo, Hooks(), max_depth=3)
+                        try:
+                            kind = _it.run_paths(lambda i, keyf=keyf, mi=mi: sort_key_kind(i, i.eval(keyf, Env(mi))))
+                            kinds = {p.value for p in kind if p.outcome == 'return'}
+                        except AnalysisError:
+                            kinds = {'unknown'}
+                        ok = ok and kinds == {'first'}
                     chk.ob('R-FLOW', fi.qualname, ok, f'sorted site {norm(c)[:60]}', f'{mi.relpath}:{c.lineno}',
                            what='keys are ordered by something other than the key comparator')
                 if isinstance(c.func, ast.Attribute) and c.func.attr == 'sort':
